@@ -7,8 +7,8 @@ TRUSTED = [
     "Lean 4.33 kernel; axioms propext, Classical.choice, Quot.sound only",
     "Model/Bec2.lean (wrap, parseFrame/unwrap, customer-key slice semantics, cscKey), Model/Crypto.lean (adapter) "
     "tied to bec2file.py / the appnote adapter by the correspondence run (all lengths 0..255, every CRC byte value)",
-    "named hypothesis BlockInv aesCipher (AES decryption inverts AES encryption on 16-byte blocks): obligation of C16, "
-    "until discharged there it is exercised by the correspondence and by the independent reference AES of the harness",
+    "BlockInv aesCipher (AES decryption inverts AES encryption on 16-byte blocks) is proved in C16 (aes_blockInv): "
+    "unwrap_wrap_aes has no cipher hypothesis left",
     "C15's theorem crc < 2^16 is used inside unwrap_wrap",
 ]
 ASSUMPTIONS = [
